@@ -770,7 +770,7 @@ Definition last_request (buf : bytes) (tsa src : Z) : Prop :=
 Lemma handle_telegram_facts now f (w : W) t il f' w' :
   handle_telegram A now f w t il = Ok (f', w') ->
   f_p f' = f_p f /\ f_gap f' = f_gap f /\ f_conn f' = f_conn f /\
-  w_tx w' = w_tx w /\ w_calls w' = w_calls w /\ w_apps w' = w_apps w /\
+  w_tx w' = w_tx w /\ w_calls w' = w_calls w /\ w_apps w' = w_apps w /\ f_lba f' = f_lba f /\
   (forall src, marker (f_state f') = Some src ->
      marker (f_state f) = Some src \/ (il = true /\ is_status_request_to (ts f) src t)).
 Proof.
@@ -813,7 +813,7 @@ Proof. unfold ts. destruct (mark_rx_frame f now) as [-> _]. reflexivity. Qed.
 Lemma active_idle_telegram_facts now (f : fdl) (w : W) t il f' w' u :
   active_idle_telegram A now (f, w) t il = Ok (f', w', u) ->
   f_p f' = f_p f /\ f_gap f' = f_gap f /\ f_conn f' = f_conn f /\
-  w_tx w' = w_tx w /\ w_calls w' = w_calls w /\ w_apps w' = w_apps w /\
+  w_tx w' = w_tx w /\ w_calls w' = w_calls w /\ w_apps w' = w_apps w /\ f_lba f' = f_lba (mark_rx f now) /\
   (forall src, marker (f_state f') = Some src ->
      marker (f_state f) = Some src \/ (il = true /\ is_status_request_to (ts f) src t)).
 Proof.
@@ -826,7 +826,7 @@ Qed.
 Lemma check_token_pass_telegram_facts now (f : fdl) (w : W) fi t il f' w' fi' u :
   check_token_pass_telegram A now (f, w, fi) t il = Ok (f', w', fi', u) ->
   f_p f' = f_p f /\ f_gap f' = f_gap f /\ f_conn f' = f_conn f /\
-  w_tx w' = w_tx w /\ w_calls w' = w_calls w /\ w_apps w' = w_apps w /\
+  w_tx w' = w_tx w /\ w_calls w' = w_calls w /\ w_apps w' = w_apps w /\ f_lba f' = f_lba (mark_rx f now) /\
   (forall src, marker (f_state f') = Some src ->
      marker (f_state f) = Some src \/ (il = true /\ is_status_request_to (ts f) src t)).
 Proof.
@@ -835,19 +835,69 @@ Proof.
   match type of H with bind ?x _ = _ => destruct x as [[f1 w1]| |] eqn:E1 end; cbn [bind] in H; try discriminate H.
   destruct (handle_telegram A now f1 w1 t il) as [[f2 w2]| |] eqn:Eh; cbn [bind] in H; try discriminate H.
   injection H as <- <- _ _. apply handle_telegram_facts in Eh.
-  destruct Eh as [Hp [Hg [Hc [Ht [Hca [Hap Hm]]]]]].
+  destruct Eh as [Hp [Hg [Hc [Ht [Hca [Hap [Hlb Hm]]]]]]].
   destruct fi.
   - apply trans_spec in E1. destruct E1 as [s' [Htr [-> ->]]].
     unfold transition_active_idle in Htr. destruct (assert_kind _ _); cbn [bind] in Htr; try discriminate Htr. injection Htr as <-.
-    cbn in Hp, Hg, Hc, Ht, Hca, Hap, Hm. rewrite Hp, Hg, Hc, Ht, Hca, Hap, Mp, Mg, Mc.
+    cbn in Hp, Hg, Hc, Ht, Hca, Hap, Hlb, Hm. rewrite Hp, Hg, Hc, Ht, Hca, Hap, Hlb, Mp, Mg, Mc.
     repeat (split; [reflexivity|]). intros src Hs. destruct (Hm src Hs) as [X|X]; [discriminate X|].
     right. unfold ts in *. cbn in X. rewrite Mp in X. exact X.
-  - injection E1 as <- <-. rewrite Hp, Hg, Hc, Ht, Hca, Hap, Mp, Mg, Mc.
+  - injection E1 as <- <-. rewrite Hp, Hg, Hc, Ht, Hca, Hap, Hlb, Mp, Mg, Mc.
     repeat (split; [reflexivity|]). intros src Hs. rewrite mark_rx_ts, Ms in Hm. exact (Hm src Hs).
 Qed.
 
 (* ------------------------------------------------------------------------------------------ *)
 (* listen_token_telegram                                                                        *)
+
+Lemma listen_token_telegram_lba now (f : fdl) (w : W) t il f' w' u :
+  listen_token_telegram A now (f, w) t il = Ok (f', w', u) ->
+  f_lba f' = f_lba (mark_rx f now) \/ (f_lba f' = None /\ f_state f' = Offline).
+Proof.
+  unfold listen_token_telegram. intros H.
+  assert (Hrest : forall X : res (fdl * W * unit),
+    X = Ok (f', w', u) ->
+    X = (if opt_eqb (source_address t) (Some (ts (mark_rx f now)))
+     then let* (sr, cc) := get_listen_token (f_state (mark_rx f now)) in
+          let* cc0 := u8_add cc 1 in
+          let f0 := set_st (mark_rx f now) (ListenToken sr cc0) in
+          if cc0 =? listen_collision_tolerated then Ok (f0, note A w TLtCollisionFirst, tt)
+          else let* f1 := set_offline f0 in Ok (f1, note A w TLtCollisionOffline, tt)
+     else match t with
+          | TData h _ =>
+              if is_fdl_status_request h && (h_da h =? ts (mark_rx f now))
+              then if il
+                   then let* (_, cc) := get_listen_token (f_state (mark_rx f now)) in
+                        Ok (set_st (mark_rx f now) (ListenToken (Some (h_sa h)) cc), note A w TLtStatusReqLast, tt)
+                   else Ok (mark_rx f now, note A w TLtStatusReqNotLast, tt)
+              else Ok (mark_rx f now, note A w TLtOther, tt)
+          | TToken da sa => let* r := witness (f_ring (mark_rx f now)) sa da in Ok (set_ring (mark_rx f now) r, note A w TLtWitness, tt)
+          | TShortConf => Ok (mark_rx f now, note A w TLtOther, tt)
+          end) ->
+    f_lba f' = f_lba (mark_rx f now) \/ (f_lba f' = None /\ f_state f' = Offline)).
+  { clear H. intros X HX ->. destruct (opt_eqb _ _).
+    - destruct (get_listen_token _) as [[sr cc]| |]; cbn [bind] in HX; try discriminate HX.
+      destruct (u8_add cc 1) as [cc'| |]; cbn [bind] in HX; try discriminate HX.
+      destruct (cc' =? listen_collision_tolerated).
+      + injection HX as <- _ _. left. reflexivity.
+      + unfold set_offline, set_state, fdl_new in HX.
+        destruct (negb _); [discriminate HX|]. destruct (negb _); [discriminate HX|].
+        destruct (ring_new _) as [r0| |]; cbn [bind] in HX; try discriminate HX.
+        injection HX as <- _ _. right. split; reflexivity.
+    - destruct t as [h pdu|da sa|].
+      + destruct (is_fdl_status_request h && _).
+        * destruct il.
+          -- destruct (get_listen_token _) as [[sr cc]| |]; cbn [bind] in HX; try discriminate HX.
+             injection HX as <- _ _. left. reflexivity.
+          -- injection HX as <- _ _. left. reflexivity.
+        * injection HX as <- _ _. left. reflexivity.
+      + destruct (witness _ _ _) as [r0| |]; cbn [bind] in HX; try discriminate HX.
+        injection HX as <- _ _. left. reflexivity.
+      + injection HX as <- _ _. left. reflexivity. }
+  destruct (f_conn (mark_rx f now)).
+  - injection H as <- _ _. left. reflexivity.
+  - exact (Hrest _ H eq_refl).
+  - exact (Hrest _ H eq_refl).
+Qed.
 
 Lemma listen_token_telegram_facts now (f : fdl) (w : W) t il f' w' u :
   listen_token_telegram A now (f, w) t il = Ok (f', w', u) ->
@@ -984,11 +1034,26 @@ Definition gap_change (f f' : fdl) : Prop :=
   (f_state f' = ClaimToken StepSecondToken /\ f_gap f' = GapDoPoll (ts f)) \/
   (f_state f' = Offline /\ f_conn f' = ConnOffline).
 
-Definition facts (f f' : fdl) (w w' : W) (now : Z) : Prop :=
+Definition lba_le (f : fdl) (now : Z) : Prop := forall l, f_lba f = Some l -> l <= now.
+
+Lemma mark_rx_lba f now : lba_le f now -> f_lba (mark_rx f now) = Some now.
+Proof.
+  unfold lba_le, mark_rx, mark_bus_activity, lba_get_or_insert. cbn [set_pending f_lba]. intros H.
+  destruct (f_lba f) as [l|]; cbn; f_equal; [specialize (H l eq_refl)|]; lia.
+Qed.
+
+(* what a step (a do_* function, or a whole poll) can do, as far as C12 is concerned:
+   its transmission, a newly pending status request (with the time stamp the pause is measured from:
+   L is what is known about last_bus_activity before the step), the GAP state *)
+Definition facts_l (L : Prop) (f f' : fdl) (w w' : W) (now : Z) : Prop :=
   f_p f' = f_p f /\
   (w_tx w = None -> w_tx w' = None \/ exists wire, w_tx w' = Some wire /\ tx_class f f' now (w_calls w) (w_calls w') wire) /\
-  (forall src, marker (f_state f') = Some src -> marker (f_state f) = Some src \/ last_request (w_rx w) (ts f) src) /\
+  (forall src, marker (f_state f') = Some src ->
+     marker (f_state f) = Some src \/
+     (last_request (w_rx w) (ts f) src /\ w_rx w' = [] /\ f_pending f' = 0%nat /\ (L -> f_lba f' = Some now))) /\
   (f_gap f' = f_gap f \/ gap_change f f').
+
+Definition facts (f f' : fdl) (w w' : W) (now : Z) : Prop := facts_l (lba_le f now) f f' w w' now.
 
 (* transport of the facts along a prefix that changed only inessential fields *)
 Lemma tx_class_pre f0 f f' now calls calls' wire :
@@ -1005,19 +1070,26 @@ Proof.
   intros Hp Hr Hs Hg. unfold gap_change. rewrite (gap_visit_step_ext f f0 Hp Hr Hg). unfold ts. rewrite Hp, Hs. tauto.
 Qed.
 
-Lemma facts_pre f0 f f' (w0 w w' : W) now :
+Lemma facts_l_pre (L0 L : Prop) f0 f f' (w0 w w' : W) now :
   f_p f = f_p f0 -> f_ring f = f_ring f0 -> f_state f = f_state f0 -> f_gap f = f_gap f0 ->
-  w_tx w = w_tx w0 -> w_calls w = w_calls w0 -> w_rx w = w_rx w0 ->
-  facts f f' w w' now -> facts f0 f' w0 w' now.
+  w_tx w = w_tx w0 -> w_calls w = w_calls w0 -> w_rx w = w_rx w0 -> (L0 -> L) ->
+  facts_l L f f' w w' now -> facts_l L0 f0 f' w0 w' now.
 Proof.
-  intros Hp Hr Hs Hg Ht Hc Hx [F1 [F2 [F3 F4]]]. unfold facts.
+  intros Hp Hr Hs Hg Ht Hc Hx HL [F1 [F2 [F3 F4]]]. unfold facts_l.
   split; [rewrite F1; exact Hp|]. split.
   - intros Hn. rewrite <- Ht in Hn. destruct (F2 Hn) as [X|[wire [X Y]]]; [left; exact X|].
     right. exists wire. split; [exact X|]. rewrite <- Hc. exact (tx_class_pre _ _ _ _ _ _ _ Hp Hr Hs Hg Y).
   - split.
-    + intros src Hm. rewrite <- Hs, <- Hx. unfold ts. rewrite <- Hp. exact (F3 src Hm).
+    + intros src Hm. rewrite <- Hs, <- Hx. unfold ts. rewrite <- Hp.
+      destruct (F3 src Hm) as [X|[X1 [X2 [X3 X4]]]]; [left; exact X|right]. repeat (split; [assumption|]). intros H0. exact (X4 (HL H0)).
     + rewrite <- Hg. destruct F4 as [X|X]; [left; exact X|right; exact (gap_change_pre _ _ _ Hp Hr Hs Hg X)].
 Qed.
+
+Lemma facts_pre f0 f f' (w0 w w' : W) now :
+  f_p f = f_p f0 -> f_ring f = f_ring f0 -> f_state f = f_state f0 -> f_gap f = f_gap f0 ->
+  w_tx w = w_tx w0 -> w_calls w = w_calls w0 -> w_rx w = w_rx w0 -> (lba_le f0 now -> lba_le f now) ->
+  facts f f' w w' now -> facts f0 f' w0 w' now.
+Proof. unfold facts. intros. eapply facts_l_pre; eassumption. Qed.
 
 Lemma gap_visit_step_in_gap f a : gap_visit_step f = Ok (GapDoPoll a) ->
   in_gap (ts f) (r_ns (f_ring f)) a /\ (gap_cursor_ok f -> 0 <= a < p_hsa (f_p f)).
@@ -1045,7 +1117,7 @@ Lemma do_pass_token_facts f now (w : W) f' w' :
 Proof.
   intros H. apply do_pass_token_spec in H.
   destruct H as [dg [att [Es [Hp [Hc [Hca [Hap [Hrx Hcases]]]]]]]].
-  unfold facts. split; [exact Hp|].
+  unfold facts, facts_l. split; [exact Hp|].
   destruct Hcases as [[T [S [G R]]]|[[-> [a [Hstep [G [S [R [T0 T]]]]]]]|[G [T0 [T [Wi St]]]]]].
   - split; [intros Hn; left; rewrite T; exact Hn|]. split; [intros src Hm; left; rewrite <- S; exact Hm|left; exact G].
   - split.
@@ -1069,7 +1141,7 @@ Lemma do_await_status_response_facts f now (w : W) f' w' :
 Proof.
   intros H. apply do_await_status_response_spec in H.
   destruct H as [a0 [Es [Hne [Hg0 [Hp [Hc [Hca [Hap [Hg [rest [received [Hrcv [Hrx Hcases]]]]]]]]]]]]].
-  unfold facts. split; [exact Hp|].
+  unfold facts, facts_l. split; [exact Hp|].
   assert (HM : marker (f_state f) = None) by (rewrite Es; reflexivity).
   destruct Hcases as [[_ [T [S R]]]|[[t [_ [_ [T [S _]]]]]|[[t [_ [_ [T [S R]]]]]|[_ [[T [S R]]|[T0 [T [Wi St]]]]]]]].
   - split; [intros Hn; left; rewrite T; exact Hn|]. split; [intros src Hm; left; rewrite <- S; exact Hm|left; exact Hg].
@@ -1088,7 +1160,7 @@ Lemma do_claim_token_facts f now (w : W) f' w' :
 Proof.
   intros H. apply do_claim_token_spec in H.
   destruct H as [st0 [Es [Hp [Hc [Hca [Hap Hcases]]]]]].
-  unfold facts. split; [exact Hp|].
+  unfold facts, facts_l. split; [exact Hp|].
   assert (HG : f_gap f' = f_gap f \/ gap_change f f') by (right; right; left; rewrite Es; reflexivity).
   assert (Hscan : forall (P : Prop),
      ( (w_tx w' = w_tx w /\ f_state f' = f_state f /\ f_gap f' = f_gap f)
@@ -1100,12 +1172,12 @@ Proof.
      f_ring f' = f_ring f ->
      (f_state f = ClaimToken StepScan \/ exists a0, f_state f = ClaimToken (StepScanAwaitResponse a0)) ->
      (w_tx w = None -> w_tx w' = None \/ exists wire, w_tx w' = Some wire /\ tx_class f f' now (w_calls w) (w_calls w') wire) /\
-     (forall src, marker (f_state f') = Some src -> marker (f_state f) = Some src \/ last_request (w_rx w) (ts f) src)).
+     (forall src, marker (f_state f') = Some src -> marker (f_state f) = Some src)).
   { intros _ Hsc Hr Hst.
     destruct Hsc as [[T [S G]]|[[T [_ [G S]]]|[[T [cur [_ [_ [G S]]]]]|[cur [a [G0 [N [G [S [T0 T]]]]]]]]]].
-    - split; [intros Hn; left; rewrite T; exact Hn|intros src Hm; left; rewrite <- S; exact Hm].
+    - split; [intros Hn; left; rewrite T; exact Hn|intros src Hm; rewrite <- S; exact Hm].
     - split; [intros Hn; left; rewrite T; exact Hn|intros src Hm; rewrite S in Hm; discriminate Hm].
-    - split; [intros Hn; left; rewrite T; exact Hn|intros src Hm; left; rewrite <- S; exact Hm].
+    - split; [intros Hn; left; rewrite T; exact Hn|intros src Hm; rewrite <- S; exact Hm].
     - split; [|intros src Hm; rewrite S in Hm; discriminate Hm].
       intros _. right. eexists. split; [exact T|]. right. split; [exact Hca|]. right. left.
       exists a. destruct (next_gap_poll_in_gap' f cur a N G0) as [I1 I2].
@@ -1121,7 +1193,7 @@ Proof.
     + split; [|split; [intros src Hm; rewrite S in Hm; discriminate Hm|exact HG]].
       intros _. right. eexists. split; [exact T|]. right. split; [exact Hca|]. left.
       eexists. split; [reflexivity|]. left. split; [reflexivity|]. right. split; [exact S|exact Es].
-  - destruct Hcases as [Hr [Hrx Hsc]]. destruct (Hscan True Hsc Hr (or_introl Es)) as [X Y]. split; [exact X|]. split; [exact Y|exact HG].
+  - destruct Hcases as [Hr [Hrx Hsc]]. destruct (Hscan True Hsc Hr (or_introl Es)) as [X Y]. split; [exact X|]. split; [intros src Hm; left; exact (Y src Hm)|exact HG].
   - destruct Hcases as [Hne [Hg0 [rest [received [Hrcv [Hrx Hcs]]]]]].
     destruct Hcs as [[_ [T [S [G R]]]]|[[t [_ [_ [T [S _]]]]]|[[t [_ [_ [T [S _]]]]]|[_ [R Hsc]]]]].
     + split; [intros Hn; left; rewrite T; exact Hn|]. split; [intros src Hm; left; rewrite <- S; exact Hm|exact HG].
@@ -1143,11 +1215,11 @@ Lemma handle_lost_token_facts f now (w : W) f' w' d :
   handle_lost_token A f now w = Ok (f', w', d) ->
   kind_of (f_state f) = KListenToken \/ kind_of (f_state f) = KActiveIdle ->
   if d then facts f f' w w' now /\ marker (f_state f') = None
-  else same_but_lba f f' /\ w' = w.
+  else same_but_lba f f' /\ w' = w /\ (lba_le f now -> lba_le f' now).
 Proof.
   unfold handle_lost_token. intros H Hkind.
   destruct (lba_get_or_insert f now) as [l f0] eqn:El.
-  apply lba_get_or_insert_same in El. destruct El as [[Hp0 [Hr0 [Hc0 [Hg0 [Hs0 Hrest0]]]]] _].
+  apply lba_get_or_insert_same in El. destruct El as [[Hp0 [Hr0 [Hc0 [Hg0 [Hs0 Hrest0]]]]] [Hl0 Hm0]].
   destruct (inst_diff now l); cbn [bind] in H; try discriminate H.
   match type of H with (if ?c then _ else _) = _ => destruct c end.
   - match type of H with context [trans A ?a ?b ?c] => destruct (trans A a b c) as [[f1 w1]| |] eqn:Et end; cbn [bind] in H; try discriminate H.
@@ -1159,37 +1231,41 @@ Proof.
     cbn [set_st f_state] in Es. injection Es as <-.
     cbn [set_st f_p f_conn f_gap f_ring f_state note w_tx w_calls w_apps w_rx] in *.
     destruct Hcases as [Hrx [[T [S [G R]]]|[T0 [T [S [G R]]]]]].
-    + split; [|rewrite S; reflexivity]. unfold facts. split; [rewrite Hp; exact Hp0|].
+    + split; [|rewrite S; reflexivity]. unfold facts, facts_l. split; [rewrite Hp; exact Hp0|].
       split; [intros Hn; left; rewrite T; exact Hn|]. split; [intros src Hm; rewrite S in Hm; discriminate Hm|].
       left. rewrite G. exact Hg0.
-    + split; [|rewrite S; reflexivity]. unfold facts. split; [rewrite Hp; exact Hp0|].
+    + split; [|rewrite S; reflexivity]. unfold facts, facts_l. split; [rewrite Hp; exact Hp0|].
       assert (Hts : ts (set_st f0 (ClaimToken StepFirstToken)) = ts f) by (unfold ts; cbn; rewrite Hp0; reflexivity).
       rewrite Hts in *.
       split; [|split; [intros src Hm; rewrite S in Hm; discriminate Hm|right; right; right; left; split; [exact S|exact G]]].
       intros _. right. eexists. split; [exact T|]. right. split; [exact Hca|]. left.
       eexists. split; [reflexivity|]. left. split; [reflexivity|]. left. split; [exact S|]. left.
       unfold idle_kind. tauto.
-  - injection H as <- <- <-. split; [|reflexivity]. unfold same_but_lba. tauto.
+  - injection H as <- <- <-. split; [unfold same_but_lba; tauto|]. split; [reflexivity|].
+    intros Hle l' Hl'. rewrite Hl0 in Hl'. injection Hl' as <-. destruct (f_lba f) as [l0|] eqn:E0; [subst l; exact (Hle l0 E0)|lia].
 Qed.
 
 (* ------------------------------------------------------------------------------------------ *)
 (* the receive loops of ListenToken / ActiveIdle / CheckTokenPass                               *)
 
-Definition cb_facts {St : Type} (fw : St -> fdl * W) (cb : St -> telegram -> bool -> res (St * unit)) : Prop :=
+Definition cb_facts {St : Type} (now : Z) (fw : St -> fdl * W) (cb : St -> telegram -> bool -> res (St * unit)) : Prop :=
   forall s t il s' u, cb s t il = Ok (s', u) ->
   let f := fst (fw s) in let w := snd (fw s) in let f' := fst (fw s') in let w' := snd (fw s') in
+  (f_lba f' = f_lba (mark_rx f now) \/ (f_lba f' = None /\ f_state f' = Offline)) /\
   f_p f' = f_p f /\ w_tx w' = w_tx w /\ w_calls w' = w_calls w /\ w_apps w' = w_apps w /\
   ((f_gap f' = f_gap f /\ f_conn f' = f_conn f) \/ (f_state f' = Offline /\ f_conn f' = ConnOffline)) /\
   (f_conn f = ConnOffline -> f_state f = Offline -> f_state f' = f_state f /\ f_gap f' = f_gap f) /\
   (forall src, marker (f_state f') = Some src ->
      marker (f_state f) = Some src \/ (il = true /\ is_status_request_to (ts f) src t)).
 
-Lemma receive_all_cb_facts {St : Type} (fw : St -> fdl * W) cb fuel s buf s' rest r :
-  cb_facts fw cb -> receive_all cb fuel s buf = Ok (s', rest, r) ->
+Lemma receive_all_cb_facts {St : Type} now (fw : St -> fdl * W) cb fuel s buf s' rest r :
+  cb_facts now fw cb -> receive_all cb fuel s buf = Ok (s', rest, r) ->
   let f := fst (fw s) in let w := snd (fw s) in let f' := fst (fw s') in let w' := snd (fw s') in
   f_p f' = f_p f /\ w_tx w' = w_tx w /\ w_calls w' = w_calls w /\ w_apps w' = w_apps w /\
   (f_gap f' = f_gap f \/ (f_state f' = Offline /\ f_conn f' = ConnOffline)) /\
-  (forall src, marker (f_state f') = Some src -> marker (f_state f) = Some src \/ last_request buf (ts f) src).
+  (forall src, marker (f_state f') = Some src ->
+     marker (f_state f) = Some src \/
+     (last_request buf (ts f) src /\ rest = [] /\ (lba_le f now -> f_lba f' = Some now))).
 Proof.
   intros Hcb H. cbv zeta.
   (* frame *)
@@ -1200,7 +1276,7 @@ Proof.
                 w_calls (snd (fw x)) = w_calls (snd (fw s)) /\ w_apps (snd (fw x)) = w_apps (snd (fw s)) /\
                 (f_gap (fst (fw x)) = f_gap (fst (fw s)) \/ (f_state (fst (fw x)) = Offline /\ f_conn (fst (fw x)) = ConnOffline)))
               cb _ fuel s buf s' rest r _ H).
-    - intros x t il x' u [I1 [I2 [I3 [I4 I5]]]] Hc. destruct (Hcb _ _ _ _ _ Hc) as [C1 [C2 [C3 [C4 [C5 [C6 _]]]]]].
+    - intros x t il x' u [I1 [I2 [I3 [I4 I5]]]] Hc. destruct (Hcb _ _ _ _ _ Hc) as [_ [C1 [C2 [C3 [C4 [C5 [C6 _]]]]]]].
       rewrite C1, C2, C3, C4. repeat (split; [assumption|]).
       destruct I5 as [I5|[I5 I6]].
       + destruct C5 as [[C5 _]|C5]; [left; rewrite C5; exact I5|right; exact C5].
@@ -1208,45 +1284,45 @@ Proof.
     - repeat (split; [reflexivity|]). left. reflexivity. }
   destruct Hfr as [F1 [F2 [F3 [F4 F5]]]]. repeat (split; [assumption|]).
   intros src Hm.
-  destruct (marker (f_state (fst (fw s)))) as [m|] eqn:Em.
-  - destruct (Z.eq_dec m src) as [->|Hne]; [left; reflexivity|].
-    right.
-    destruct (receive_all_last_inv
-      (fun x => marker (f_state (fst (fw x))) <> Some src /\ f_p (fst (fw x)) = f_p (fst (fw s)))
-      (fun x t => is_status_request_to (ts (fst (fw s))) src t) cb) with (fuel := fuel) (s := s) (buf := buf) (s' := s') (rest := rest) (r := r)
-      as [[X _]|[pre [suf [t [Hb [Hd [Hq _]]]]]]]; try assumption.
-    + intros x t x' u [I1 I2] Hc. destruct (Hcb _ _ _ _ _ Hc) as [C1 [_ [_ [_ [_ [_ C7]]]]]].
-      split; [|rewrite C1; exact I2]. intros Hx. destruct (C7 src Hx) as [Y|[Y _]]; [contradiction|discriminate Y].
-    + intros x t x' u [I1 I2] Hc. destruct (Hcb _ _ _ _ _ Hc) as [C1 [_ [_ [_ [_ [_ C7]]]]]].
-      destruct (marker (f_state (fst (fw x')))) as [m'|] eqn:Em'.
-      * destruct (Z.eq_dec m' src) as [->|Hne'].
-        -- right. destruct (C7 src eq_refl) as [Y|[_ Y]]; [contradiction|]. unfold ts in *. rewrite I2 in Y. exact Y.
-        -- left. split; [intros Q; injection Q as Q; contradiction|rewrite C1; exact I2].
-      * left. split; [discriminate|rewrite C1; exact I2].
-    + split; [rewrite Em; intros Q; injection Q as Q; contradiction|reflexivity].
-    + contradiction.
-    + exists pre, suf, t. repeat split; assumption.
-  - right.
-    destruct (receive_all_last_inv
-      (fun x => marker (f_state (fst (fw x))) <> Some src /\ f_p (fst (fw x)) = f_p (fst (fw s)))
-      (fun x t => is_status_request_to (ts (fst (fw s))) src t) cb) with (fuel := fuel) (s := s) (buf := buf) (s' := s') (rest := rest) (r := r)
-      as [[X _]|[pre [suf [t [Hb [Hd [Hq _]]]]]]]; try assumption.
-    + intros x t x' u [I1 I2] Hc. destruct (Hcb _ _ _ _ _ Hc) as [C1 [_ [_ [_ [_ [_ C7]]]]]].
-      split; [|rewrite C1; exact I2]. intros Hx. destruct (C7 src Hx) as [Y|[Y _]]; [contradiction|discriminate Y].
-    + intros x t x' u [I1 I2] Hc. destruct (Hcb _ _ _ _ _ Hc) as [C1 [_ [_ [_ [_ [_ C7]]]]]].
-      destruct (marker (f_state (fst (fw x')))) as [m'|] eqn:Em'.
-      * destruct (Z.eq_dec m' src) as [->|Hne'].
-        -- right. destruct (C7 src eq_refl) as [Y|[_ Y]]; [contradiction|]. unfold ts in *. rewrite I2 in Y. exact Y.
-        -- left. split; [intros Q; injection Q as Q; contradiction|rewrite C1; exact I2].
-      * left. split; [discriminate|rewrite C1; exact I2].
-    + split; [rewrite Em; discriminate|reflexivity].
-    + contradiction.
-    + exists pre, suf, t. repeat split; assumption.
+  assert (Hdec : marker (f_state (fst (fw s))) = Some src \/ marker (f_state (fst (fw s))) <> Some src).
+  { destruct (marker (f_state (fst (fw s)))) as [m|]; [|right; discriminate].
+    destruct (Z.eq_dec m src) as [->|Hne]; [left; reflexivity|right; intros Q; injection Q as Q; contradiction]. }
+  destruct Hdec as [Hd|Hd]; [left; exact Hd|]. right.
+  destruct (receive_all_last_inv
+      (fun x => marker (f_state (fst (fw x))) <> Some src /\ f_p (fst (fw x)) = f_p (fst (fw s)) /\
+                (lba_le (fst (fw s)) now -> lba_le (fst (fw x)) now))
+      (fun x t => is_status_request_to (ts (fst (fw s))) src t /\ (lba_le (fst (fw s)) now -> f_lba (fst (fw x)) = Some now)) cb)
+      with (fuel := fuel) (s := s) (buf := buf) (s' := s') (rest := rest) (r := r)
+      as [[X _]|[pre [suf [t [Hb [Hdc [[Hq Hlb] Hrest]]]]]]]; try assumption.
+  - intros x t x' u [I1 [I2 I3]] Hc. destruct (Hcb _ _ _ _ _ Hc) as [C0 [C1 [_ [_ [_ [_ [_ C7]]]]]]].
+    split; [|split; [rewrite C1; exact I2|]].
+    + intros Hx. destruct (C7 src Hx) as [Y|[Y _]]; [contradiction|discriminate Y].
+    + intros Hs. specialize (I3 Hs). destruct C0 as [C0|[C0 _]].
+      * intros l Hl. rewrite C0, (mark_rx_lba _ _ I3) in Hl. injection Hl as <-. lia.
+      * intros l Hl. rewrite C0 in Hl. discriminate Hl.
+  - intros x t x' u [I1 [I2 I3]] Hc. destruct (Hcb _ _ _ _ _ Hc) as [C0 [C1 [_ [_ [_ [_ [_ C7]]]]]]].
+    assert (Hle : lba_le (fst (fw s)) now -> lba_le (fst (fw x')) now).
+    { intros Hs. specialize (I3 Hs). destruct C0 as [C0|[C0 _]].
+      - intros l Hl. rewrite C0, (mark_rx_lba _ _ I3) in Hl. injection Hl as <-. lia.
+      - intros l Hl. rewrite C0 in Hl. discriminate Hl. }
+    assert (Hdec' : marker (f_state (fst (fw x'))) = Some src \/ marker (f_state (fst (fw x'))) <> Some src).
+    { destruct (marker (f_state (fst (fw x')))) as [m|]; [|right; discriminate].
+      destruct (Z.eq_dec m src) as [->|Hne]; [left; reflexivity|right; intros Q; injection Q as Q; contradiction]. }
+    destruct Hdec' as [Hm'|Hm'].
+    + right. destruct (C7 src Hm') as [Y|[_ Y]]; [contradiction|]. split.
+      * unfold ts in *. rewrite I2 in Y. exact Y.
+      * intros Hs. destruct C0 as [C0|[_ C0]]; [rewrite C0; apply mark_rx_lba; exact (I3 Hs)|].
+        rewrite C0 in Hm'. discriminate Hm'.
+    + left. split; [exact Hm'|]. split; [rewrite C1; exact I2|exact Hle].
+  - split; [exact Hd|]. split; [reflexivity|]. intros Hs. exact Hs.
+  - contradiction.
+  - split; [exists pre, suf, t; repeat split; assumption|]. split; assumption.
 Qed.
 
-Lemma listen_cb_facts now : cb_facts (fun s : fdl * W => s) (listen_token_telegram A now).
+Lemma listen_cb_facts now : cb_facts now (fun s : fdl * W => s) (listen_token_telegram A now).
 Proof.
-  intros [f w] t il [f' w'] u Hc. cbn [fst snd]. apply listen_token_telegram_facts in Hc.
+  intros [f w] t il [f' w'] u Hc. cbn [fst snd]. split; [exact (listen_token_telegram_lba _ _ _ _ _ _ _ _ Hc)|].
+  apply listen_token_telegram_facts in Hc.
   destruct Hc as [C1 [C2 [C3 [C4 [C5 [C6 C7]]]]]]. repeat (split; [assumption|]). split; [|exact C7].
   intros Hco _. exact (C6 Hco).
 Qed.
@@ -1254,20 +1330,20 @@ Qed.
 Lemma handle_telegram_offline now f (w : W) t il : f_state f = Offline -> handle_telegram A now f w t il = Panic SiteAssert.
 Proof. intros E. unfold handle_telegram. rewrite E. reflexivity. Qed.
 
-Lemma active_idle_cb_facts now : cb_facts (fun s : fdl * W => s) (active_idle_telegram A now).
+Lemma active_idle_cb_facts now : cb_facts now (fun s : fdl * W => s) (active_idle_telegram A now).
 Proof.
   intros [f w] t il [f' w'] u Hc. cbn [fst snd]. pose proof Hc as Hraw. apply active_idle_telegram_facts in Hc.
-  destruct Hc as [C1 [C2 [C3 [C4 [C5 [C6 C7]]]]]]. repeat (split; [assumption|]).
+  destruct Hc as [C1 [C2 [C3 [C4 [C5 [C6 [C0 C7]]]]]]]. split; [left; exact C0|]. repeat (split; [assumption|]).
   split; [left; split; assumption|]. split; [|exact C7].
   intros _ Hoff. exfalso. unfold active_idle_telegram in Hraw.
   rewrite handle_telegram_offline in Hraw; [discriminate Hraw|].
   destruct (mark_rx_frame f now) as [_ [_ [_ [Ms _]]]]. rewrite Ms. exact Hoff.
 Qed.
 
-Lemma check_cb_facts now : cb_facts (fun s : fdl * W * bool => fst s) (check_token_pass_telegram A now).
+Lemma check_cb_facts now : cb_facts now (fun s : fdl * W * bool => fst s) (check_token_pass_telegram A now).
 Proof.
   intros [[f w] fi] t il [[f' w'] fi'] u Hc. cbn [fst snd]. pose proof Hc as Hraw. apply check_token_pass_telegram_facts in Hc.
-  destruct Hc as [C1 [C2 [C3 [C4 [C5 [C6 C7]]]]]]. repeat (split; [assumption|]).
+  destruct Hc as [C1 [C2 [C3 [C4 [C5 [C6 [C0 C7]]]]]]]. split; [left; exact C0|]. repeat (split; [assumption|]).
   split; [left; split; assumption|]. split; [|exact C7].
   intros _ Hoff. exfalso. unfold check_token_pass_telegram in Hraw.
   destruct (mark_rx_frame f now) as [_ [_ [_ [Ms _]]]].
@@ -1276,18 +1352,18 @@ Proof.
   - cbn [bind] in Hraw. rewrite handle_telegram_offline in Hraw; [discriminate Hraw|]. rewrite Ms. exact Hoff.
 Qed.
 
-Lemma facts_silent f f' (w w' : W) now :
-  f_p f' = f_p f -> f_state f' = f_state f -> f_gap f' = f_gap f -> w_tx w' = w_tx w -> facts f f' w w' now.
+Lemma facts_silent L f f' (w w' : W) now :
+  f_p f' = f_p f -> f_state f' = f_state f -> f_gap f' = f_gap f -> w_tx w' = w_tx w -> facts_l L f f' w w' now.
 Proof.
-  intros Hp Hs Hg Ht. unfold facts. split; [exact Hp|]. split; [intros Hn; left; rewrite Ht; exact Hn|].
+  intros Hp Hs Hg Ht. unfold facts_l. split; [exact Hp|]. split; [intros Hn; left; rewrite Ht; exact Hn|].
   split; [intros src Hm; left; rewrite <- Hs; exact Hm|left; exact Hg].
 Qed.
 
 (* a step that neither transmits nor leaves a pending request nor touches the GAP state *)
-Lemma facts_quiet f f' (w w' : W) now :
-  f_p f' = f_p f -> marker (f_state f') = None -> f_gap f' = f_gap f -> w_tx w' = w_tx w -> facts f f' w w' now.
+Lemma facts_quiet L f f' (w w' : W) now :
+  f_p f' = f_p f -> marker (f_state f') = None -> f_gap f' = f_gap f -> w_tx w' = w_tx w -> facts_l L f f' w w' now.
 Proof.
-  intros Hp Hs Hg Ht. unfold facts. split; [exact Hp|]. split; [intros Hn; left; rewrite Ht; exact Hn|].
+  intros Hp Hs Hg Ht. unfold facts_l. split; [exact Hp|]. split; [intros Hn; left; rewrite Ht; exact Hn|].
   split; [intros src Hm; rewrite Hs in Hm; discriminate Hm|left; exact Hg].
 Qed.
 
@@ -1295,16 +1371,18 @@ Qed.
 (* do_listen_token / do_active_idle                                                             *)
 
 Lemma receive_all_telegrams_facts cb f now (w : W) f' w' :
-  cb_facts (fun s : fdl * W => s) cb ->
+  cb_facts now (fun s : fdl * W => s) cb ->
   receive_all_telegrams A cb f w = Ok (f', w') -> facts f f' w w' now.
 Proof.
   intros Hcb. unfold receive_all_telegrams. intros H.
   destruct (receive_all cb _ (f, w) (w_rx w)) as [[[s1 rest] r]| |] eqn:Er; cbn [bind] in H; try discriminate H.
   destruct s1 as [f1 w1]. injection H as <- <-.
-  pose proof (receive_all_cb_facts (fun s : fdl * W => s) cb _ _ _ _ _ _ Hcb Er) as Hf. cbn [fst snd] in Hf.
+  pose proof (receive_all_cb_facts now (fun s : fdl * W => s) cb _ _ _ _ _ _ Hcb Er) as Hf. cbn [fst snd] in Hf.
   destruct Hf as [F1 [F2 [F3 [F4 [F5 F6]]]]].
-  unfold facts, sync_pending_bytes. cbn [set_pending set_rx f_p f_state f_gap f_conn w_tx w_calls].
-  split; [exact F1|]. split; [intros Hn; left; rewrite F2; exact Hn|]. split; [exact F6|].
+  unfold facts, facts_l, sync_pending_bytes. cbn [set_pending set_rx f_p f_state f_gap f_conn f_lba f_pending w_tx w_calls w_rx].
+  split; [exact F1|]. split; [intros Hn; left; rewrite F2; exact Hn|]. split.
+  { intros src Hm. destruct (F6 src Hm) as [X|[X1 [-> X3]]]; [left; exact X|right].
+    split; [exact X1|]. split; [reflexivity|]. split; [apply Nat.min_0_r|exact X3]. }
   destruct F5 as [F5|F5]; [left; exact F5|right; right; right; right; exact F5].
 Qed.
 
@@ -1316,7 +1394,7 @@ Proof.
   destruct (handle_lost_token A f now w) as [[[f0 w0] d]| |] eqn:Eh; cbn [bind] in H; try discriminate H.
   apply handle_lost_token_facts in Eh; [|rewrite Es; cbn; tauto]. destruct d.
   - injection H as <- <-. exact (proj1 Eh).
-  - destruct Eh as [[Hp0 [Hr0 [Hc0 [Hg0 [Hs0 _]]]]] ->].
+  - destruct Eh as [[Hp0 [Hr0 [Hc0 [Hg0 [Hs0 _]]]]] [-> Hle0]].
     rewrite Hs0, Es in H. cbn [get_listen_token bind] in H.
     destruct sr0 as [src|].
     + destruct (wait_synchronization_pause f0 now) as [[f1 wait]| |] eqn:Ew; cbn [bind] in H; try discriminate H.
@@ -1340,7 +1418,7 @@ Proof.
             cbn. repeat split; try congruence; try (destruct (src =? r_ps (f_ring f)); reflexivity).
           - rewrite Hs1, Hs0, Es in Et. cbn [get_listen_token bind] in Et. injection Et as <- <-. cbn. repeat split; congruence. }
         destruct H2 as [Hp2 [Hg2 [Hca2 [Htx2 Hs2]]]].
-        unfold facts. split; [congruence|]. split; [|split].
+        unfold facts, facts_l. split; [congruence|]. split; [|split].
         -- intros _. right. eexists. split; [exact Htx2|]. right. split; [exact Hca2|]. right. right.
            eexists; eexists. split; [reflexivity|]. left. exists cc0. split; [exact Es|]. split; [reflexivity|]. rewrite Hs3. exact Hs2.
         -- intros s Hm. rewrite Hs3, Hs2 in Hm. destruct (ready_for_ring (f_ring f)); discriminate Hm.
@@ -1357,7 +1435,7 @@ Proof.
   destruct (handle_lost_token A f now w) as [[[f0 w0] d]| |] eqn:Eh; cbn [bind] in H; try discriminate H.
   apply handle_lost_token_facts in Eh; [|rewrite Es; cbn; tauto]. destruct d.
   - injection H as <- <-. exact (proj1 Eh).
-  - destruct Eh as [[Hp0 [Hr0 [Hc0 [Hg0 [Hs0 _]]]]] ->].
+  - destruct Eh as [[Hp0 [Hr0 [Hc0 [Hg0 [Hs0 _]]]]] [-> Hle0]].
     rewrite Hs0, Es in H. cbn [get_active_idle bind] in H.
     destruct sr0 as [src|].
     + destruct (wait_synchronization_pause f0 now) as [[f1 wait]| |] eqn:Ew; cbn [bind] in H; try discriminate H.
@@ -1372,7 +1450,7 @@ Proof.
         destruct (mark_tx _ now n) as [f3| |] eqn:Em; cbn [bind] in H; try discriminate H.
         injection H as <- <-. apply mark_tx_same in Em. destruct Em as [Hp3 [Hr3 [Hc3 [Hg3 [Hs3 _]]]]].
         cbn in Hp3, Hg3, Hs3.
-        unfold facts. split; [congruence|]. split; [|split].
+        unfold facts, facts_l. split; [congruence|]. split; [|split].
         -- intros _. right. eexists. split; [reflexivity|]. right. split; [reflexivity|]. right. right.
            eexists; eexists. split; [reflexivity|]. right. exists nps0, cc0. split; [exact Es|]. split; [reflexivity|]. exact Hs3.
         -- intros s Hm. rewrite Hs3 in Hm. discriminate Hm.
@@ -1384,12 +1462,21 @@ Qed.
 (* ------------------------------------------------------------------------------------------ *)
 (* do_check_token_pass                                                                          *)
 
+Lemma check_slot_expired_lba f now f' b : check_slot_expired f now = Ok (f', b) -> lba_le f now -> lba_le f' now.
+Proof.
+  unfold check_slot_expired. destruct (lba_get_or_insert f now) as [l f1] eqn:E.
+  apply lba_get_or_insert_same in E. destruct E as [_ [Hl Hm]].
+  destruct (inst_add _ _); cbn [bind]; try discriminate. intros H. injection H as <- _.
+  intros Hle l' Hl'. rewrite Hl in Hl'. injection Hl' as <-. destruct (f_lba f) as [l0|] eqn:E0; [subst l; exact (Hle l0 E0)|lia].
+Qed.
+
 Lemma do_check_token_pass_facts f now (w : W) f' w' :
   do_check_token_pass A f now w = Ok (f', w') -> facts f f' w w' now.
 Proof.
   unfold do_check_token_pass, assert_entry. intros H.
   destruct (f_state f) as [ | | | | | | | |att0| ] eqn:Es; cbn [kind_of do_fn_entry state_kind_eqb bind] in H; try discriminate H.
   destruct (check_slot_expired f now) as [[f1 expired]| |] eqn:Ec; cbn [bind] in H; try discriminate H.
+  pose proof (check_slot_expired_lba _ _ _ _ Ec) as Hle1.
   apply check_slot_expired_same in Ec. destruct Ec as [Hp1 [Hr1 [Hc1 [Hg1 [Hs1 _]]]]].
   destruct expired.
   - rewrite Hs1, Es in H. cbn [get_check_token_pass_attempt bind] in H.
@@ -1408,7 +1495,7 @@ Proof.
     destruct Hcases as [[T [S [G R]]]|[[D _]|[G [T0 [T [Wi St]]]]]].
     + apply facts_quiet; try congruence. rewrite S. reflexivity.
     + discriminate D.
-    + unfold facts. split; [congruence|]. split; [|split].
+    + unfold facts, facts_l. split; [congruence|]. split; [|split].
       * intros _. right. eexists. split; [exact T|]. right. split; [congruence|]. left.
         eexists. split; [rewrite Hts; reflexivity|]. right. split; [|right; right; rewrite Es; reflexivity].
         destruct St as [[_ S]|[_ S]]; [left; exact S|right; eexists; exact S].
@@ -1416,13 +1503,14 @@ Proof.
       * left. congruence.
   - destruct (receive_all _ _ (f1, w, true) (w_rx w)) as [[[s1 rest] r]| |] eqn:Er; cbn [bind] in H; try discriminate H.
     destruct s1 as [[f2 w2] fi]. injection H as <- <-.
-    pose proof (receive_all_cb_facts (fun s : fdl * W * bool => fst s) _ _ _ _ _ _ _ (check_cb_facts now) Er) as Hf. cbn [fst snd] in Hf.
+    pose proof (receive_all_cb_facts now (fun s : fdl * W * bool => fst s) _ _ _ _ _ _ _ (check_cb_facts now) Er) as Hf. cbn [fst snd] in Hf.
     destruct Hf as [F1 [F2 [F3 [F4 [F5 F6]]]]].
-    unfold facts, sync_pending_bytes. cbn [set_pending set_rx f_p f_state f_gap f_conn w_tx w_calls].
+    unfold facts, facts_l, sync_pending_bytes. cbn [set_pending set_rx f_p f_state f_gap f_conn f_lba f_pending w_tx w_calls w_rx].
     split; [congruence|]. split; [|split].
     + intros Hn. left. destruct fi; cbn; rewrite F2; exact Hn.
-    + intros src Hm. destruct (F6 src Hm) as [X|X]; [rewrite Hs1, Es in X; discriminate X|].
-      right. unfold ts in *. rewrite Hp1 in X. exact X.
+    + intros src Hm. destruct (F6 src Hm) as [X|[X1 [-> X3]]]; [rewrite Hs1, Es in X; discriminate X|].
+      right. unfold ts in *. rewrite Hp1 in X1. split; [exact X1|].
+      split; [destruct fi; reflexivity|]. split; [apply Nat.min_0_r|]. intros Hle. exact (X3 (Hle1 Hle)).
     + destruct F5 as [F5|F5]; [left; congruence|right; right; right; right; exact F5].
 Qed.
 
@@ -1489,7 +1577,7 @@ Definition use_facts (f f' : fdl) (w w' : W) : Prop :=
 
 Lemma use_facts_facts f f' (w w' : W) now : use_facts f f' w w' -> facts f f' w w' now.
 Proof.
-  intros [U1 [U2 [U3 U4]]]. unfold facts. split; [exact U1|]. split; [|split].
+  intros [U1 [U2 [U3 U4]]]. unfold facts, facts_l. split; [exact U1|]. split; [|split].
   - intros Hn. destruct (U4 Hn) as [X|[wire [X Y]]]; [left; exact X|right; exists wire; split; [exact X|left; exact Y]].
   - intros src Hm. rewrite U3 in Hm. discriminate Hm.
   - left. exact U2.
@@ -1647,7 +1735,7 @@ Proof. unfold pre_rel. repeat (split; [reflexivity|]). left. reflexivity. Qed.
 
 Lemma poll_inner_cases f now busy (w : W) f' w' :
   poll_inner ops f now busy w = Ok (f', w') ->
-  pre_rel f f' w w' \/ exists f3 w3, pre_rel f f3 w w3 /\ dispatch f3 now w3 = Ok (f', w').
+  pre_rel f f' w w' \/ exists f3 w3, pre_rel f f3 w w3 /\ lba_le f3 now /\ dispatch f3 now w3 = Ok (f', w').
 Proof.
   unfold poll_inner. intros E.
   match type of E with bind ?r _ = _ => destruct r as [[[f2 w2] off]| |] eqn:Ep end; cbn [bind] in E; try discriminate E.
@@ -1669,13 +1757,17 @@ Proof.
   destruct off; [injection E as <- <-; left; exact Hpre|].
   unfold check_for_ongoing_transmision in E.
   destruct Hpre as [P1 [P2 [P3 [P4 [P5 [P6 [P7 [P8 P9]]]]]]]].
-  match type of E with context [if ?c then (_, _, true) else _] => destruct c end.
+  match type of E with context [if ?c then (_, _, true) else _] => destruct c eqn:Eb end.
   - injection E as <- <-. left. unfold pre_rel, mark_bus_activity, lba_get_or_insert. destruct (f_lba f2); cbn; repeat (split; [assumption|]); exact P9.
-  - right. unfold check_for_bus_activity in E.
+  - right. apply orb_false_iff in Eb. destruct Eb as [_ Eb].
+    assert (Hle2 : lba_le f2 now).
+    { intros l Hl. rewrite Hl in Eb. change ongoing_uses_predicted_end with true in Eb. cbn [andb] in Eb. apply Z.leb_gt in Eb. lia. }
+    unfold check_for_bus_activity in E.
     match type of E with context [if Nat.ltb ?a ?b then _ else _] => destruct (Nat.ltb a b) end.
-    + eexists; eexists. split; [|exact E].
-      unfold pre_rel, mark_bus_activity, lba_get_or_insert. destruct (f_lba f2); cbn; repeat (split; [assumption|]); exact P9.
-    + exists f2, w2. split; [|exact E]. unfold pre_rel. repeat (split; [assumption|]). exact P9.
+    + eexists; eexists. split; [|split; [|exact E]].
+      * unfold pre_rel, mark_bus_activity, lba_get_or_insert. destruct (f_lba f2); cbn; repeat (split; [assumption|]); exact P9.
+      * intros l Hl. unfold mark_bus_activity, lba_get_or_insert in Hl. destruct (f_lba f2) as [l2|] eqn:E2; cbn in Hl; injection Hl as <-; [specialize (Hle2 l2 E2)|]; lia.
+    + exists f2, w2. split; [|split; [exact Hle2|exact E]]. unfold pre_rel. repeat (split; [assumption|]). exact P9.
 Qed.
 
 Lemma dispatch_facts f now (w : W) f' w' : dispatch f now w = Ok (f', w') -> facts f f' w w' now.
@@ -1688,18 +1780,18 @@ Proof.
 Qed.
 
 Lemma facts_entry f f3 f' (w w3 w' : W) now :
-  pre_rel f f3 w w3 -> facts f3 f' w3 w' now -> facts f f' w w' now.
+  pre_rel f f3 w w3 -> lba_le f3 now -> facts f3 f' w3 w' now -> facts_l True f f' w w' now.
 Proof.
-  intros [P1 [P2 [P3 [P4 [P5 [P6 [P7 [P8 P9]]]]]]]] Hf.
+  intros [P1 [P2 [P3 [P4 [P5 [P6 [P7 [P8 P9]]]]]]]] Hle3 Hf.
   destruct P9 as [P9|P9].
-  - exact (facts_pre f f3 f' w w3 w' now P1 P2 P9 P3 P5 P6 P7 Hf).
+  - exact (facts_l_pre True (lba_le f3 now) f f3 f' w w3 w' now P1 P2 P9 P3 P5 P6 P7 (fun _ => Hle3) Hf).
   - assert (Hst : f_state f3 = ListenToken None 0 \/ f_state f3 = PassiveIdle) by (destruct P9 as [[_ X]|[_ X]]; [left|right]; exact X).
     assert (Hidle : idle_kind f).
     { unfold idle_kind. destruct P9 as [[X _]|[X _]]; [right; right; exact X|].
       destruct (f_state f); cbn in X |- *; try discriminate X; tauto. }
     clear P9. destruct Hf as [F1 [F2 [F3 F4]]].
     assert (Hts : ts f3 = ts f) by (unfold ts; rewrite P1; reflexivity).
-    unfold facts. split; [congruence|]. split; [|split].
+    unfold facts, facts_l. split; [congruence|]. split; [|split].
     + intros Hn. rewrite <- P5 in Hn. destruct (F2 Hn) as [X|[wire [X Y]]]; [left; exact X|]. right. exists wire. split; [exact X|].
       rewrite <- P6. destruct Y as [Y|[Yc [Y|[Y|Y]]]].
       * exfalso. destruct Y as [cs [i [hp [er [_ [[K|K] _]]]]]]; destruct Hst as [Q|Q]; rewrite Q in K; discriminate K.
@@ -1712,9 +1804,9 @@ Proof.
         -- exfalso. destruct Hst as [Q|Q]; rewrite Q in K; discriminate K.
       * exfalso. destruct Y as [a [_ [_ [_ [_ [_ [[_ [att S]]|[_ [S|[a0 S]]]]]]]]]]; destruct Hst as [Q|Q]; rewrite Q in S; discriminate S.
       * exfalso. destruct Y as [src [st [_ [[cc [S _]]|[nps [cc [S _]]]]]]]; destruct Hst as [Q|Q]; rewrite Q in S; discriminate S.
-    + intros src Hm. destruct (F3 src Hm) as [X|X].
+    + intros src Hm. destruct (F3 src Hm) as [X|[X1 [X2 [X3 X4]]]].
       * exfalso. destruct Hst as [Q|Q]; rewrite Q in X; discriminate X.
-      * right. rewrite <- P7, <- Hts. exact X.
+      * right. rewrite <- P7, <- Hts. repeat (split; [assumption|]). intros _. exact (X4 Hle3).
     + rewrite <- P3. destruct F4 as [X|X]; [left; exact X|]. right.
       destruct X as [[att [S _]]|[S|[S|S]]].
       * exfalso. destruct Hst as [Q|Q]; rewrite Q in S; discriminate S.
@@ -1723,7 +1815,7 @@ Proof.
       * right. right. right. exact S.
 Qed.
 
-Lemma pre_rel_facts f f' (w w' : W) now : pre_rel f f' w w' -> facts f f' w w' now.
+Lemma pre_rel_facts L f f' (w w' : W) now : pre_rel f f' w w' -> facts_l L f f' w w' now.
 Proof.
   intros [P1 [P2 [P3 [P4 [P5 [P6 [P7 [P8 P9]]]]]]]].
   destruct P9 as [P9|[[_ P9]|[_ P9]]].
@@ -1733,11 +1825,11 @@ Proof.
 Qed.
 
 Lemma poll_inner_facts f now busy (w : W) f' w' :
-  poll_inner ops f now busy w = Ok (f', w') -> facts f f' w w' now.
+  poll_inner ops f now busy w = Ok (f', w') -> facts_l True f f' w w' now.
 Proof.
-  intros H. apply poll_inner_cases in H. destruct H as [H|[f3 [w3 [Hpre Hd]]]].
-  - exact (pre_rel_facts _ _ _ _ _ H).
-  - exact (facts_entry _ _ _ _ _ _ _ Hpre (dispatch_facts _ _ _ _ _ Hd)).
+  intros H. apply poll_inner_cases in H. destruct H as [H|[f3 [w3 [Hpre [Hle Hd]]]]].
+  - exact (pre_rel_facts _ _ _ _ _ _ H).
+  - exact (facts_entry _ _ _ _ _ _ _ Hpre Hle (dispatch_facts _ _ _ _ _ Hd)).
 Qed.
 
 Lemma poll_unfold f now pin (apps : list A) f' o apps' calls :
@@ -1769,10 +1861,12 @@ Qed.
    addressed to this station that was the last telegram of the receive buffer of this poll. *)
 Theorem poll_marks_last_request f now pin (apps : list A) f' o apps' calls src :
   poll ops f now pin apps = Ok (f', o, apps', calls) -> marker (f_state f') = Some src ->
-  marker (f_state f) = Some src \/ last_request (rx pin) (ts f) src.
+  marker (f_state f) = Some src \/
+  (last_request (rx pin) (ts f) src /\ rx_left o = [] /\ f_pending f' = 0%nat /\ f_lba f' = Some now).
 Proof.
-  intros H Hm. apply poll_unfold in H. destruct H as [w' [Hi _]].
-  apply poll_inner_facts in Hi. destruct Hi as [_ [_ [F3 _]]]. exact (F3 src Hm).
+  intros H Hm. apply poll_unfold in H. destruct H as [w' [Hi [-> _]]]. cbn [rx_left].
+  apply poll_inner_facts in Hi. destruct Hi as [_ [_ [F3 _]]].
+  destruct (F3 src Hm) as [X|[X1 [X2 [X3 X4]]]]; [left; exact X|right]. repeat (split; [assumption|]). exact (X4 I).
 Qed.
 
 (* The GAP state changes only by the GAP step of a token visit (PassToken{do_gap}), during the
@@ -1847,7 +1941,7 @@ Theorem after_gap_request_step f now pin (apps : list A) f' o apps' calls :
       (f_state f' = UseToken now None false \/ exists att, f_state f' = CheckTokenPass att)) ).
 Proof.
   intros H Hgd. apply poll_unfold in H. destruct H as [w' [Hi [-> [_ ->]]]]. cbn [tx].
-  apply poll_inner_cases in Hi. destruct Hi as [Hpre|[f3 [w3 [Hpre Hd]]]].
+  apply poll_inner_cases in Hi. destruct Hi as [Hpre|[f3 [w3 [Hpre [Hle3 Hd]]]]].
   - pose proof (pre_rel_state _ _ _ _ Hpre) as Hs.
     destruct Hpre as [P1 [P2 [P3 [P4 [P5 [P6 [P7 [P8 P9]]]]]]]]. cbn in P5, P6.
     split; [exact P6|]. split; [exact P3|]. left. split; [exact P5|]. left.
@@ -1936,7 +2030,7 @@ Theorem pass_token_performs_gap_step f now pin (apps : list A) f' o apps' calls 
          (f_state f' = UseToken now None false \/ f_state f' = CheckTokenPass att)) )).
 Proof.
   intros H Es. apply poll_unfold in H. destruct H as [w' [Hi [-> [_ ->]]]]. cbn [tx].
-  apply poll_inner_cases in Hi. destruct Hi as [Hpre|[f3 [w3 [Hpre Hd]]]].
+  apply poll_inner_cases in Hi. destruct Hi as [Hpre|[f3 [w3 [Hpre [Hle3 Hd]]]]].
   - pose proof (pre_rel_state _ _ _ _ Hpre) as Hs. rewrite Es in Hs. specialize (Hs eq_refl eq_refl).
     destruct Hpre as [P1 [P2 [P3 [P4 [P5 [P6 [P7 [P8 P9]]]]]]]]. cbn in P5.
     left. rewrite Es. repeat split; assumption.
@@ -1969,7 +2063,7 @@ Proof.
   intros H Hst. apply poll_unfold in H. destruct H as [w' [Hi [-> [_ ->]]]]. cbn [tx].
   assert (Hk : online_entry_kind (kind_of (f_state f)) = false /\ passive_entry_kind (kind_of (f_state f)) = false)
     by (destruct Hst as [S|[a0 S]]; rewrite S; split; reflexivity).
-  apply poll_inner_cases in Hi. destruct Hi as [Hpre|[f3 [w3 [Hpre Hd]]]].
+  apply poll_inner_cases in Hi. destruct Hi as [Hpre|[f3 [w3 [Hpre [Hle3 Hd]]]]].
   - pose proof (pre_rel_state _ _ _ _ Hpre (proj1 Hk) (proj2 Hk)) as Hs.
     destruct Hpre as [P1 [P2 [P3 [P4 [P5 [P6 [P7 [P8 P9]]]]]]]]. cbn in P5, P6.
     split; [exact P6|]. left. split; [exact P5|]. left. exact Hs.
@@ -2187,7 +2281,7 @@ Theorem successor_unchanged_otherwise f now pin (apps : list A) f' o apps' calls
    witness (f_ring f) (ts f) (r_ns (f_ring f)) = Ok (f_ring f')).
 Proof.
   intros H Hst Hno. apply poll_unfold in H. destruct H as [w' [Hi [-> [_ ->]]]]. cbn [tx].
-  apply poll_inner_cases in Hi. destruct Hi as [Hpre|[f3 [w3 [Hpre Hd]]]].
+  apply poll_inner_cases in Hi. destruct Hi as [Hpre|[f3 [w3 [Hpre [Hle3 Hd]]]]].
   - left. destruct Hpre as [_ [P2 _]]. exact P2.
   - assert (Hs3 : f_state f3 = f_state f)
       by (apply (pre_rel_state _ _ _ _ Hpre); destruct Hst as [S|S]; rewrite S; reflexivity).
